@@ -5,12 +5,12 @@ var fileLoopBounds = map[string]int{"github.com/inbucket/inbucket/v3/pkg/storage
 func init() {
 	register(Harness{
 		Prop: "C10", Pkg: "storage/file", Func: "VerifC10History", InitPkgs: []string{"storage"},
-		Quick:      [][]int64{{2, 0, 0, 0}, {2, 1, 0, 0}, {2, 0, 1, 0}, {1, 1, 1, 0}, {1, 0, 1, 1}, {1, 0, 1, 2}},
-		Thorough:   [][]int64{{3, 0, 0, 0}, {3, 1, 0, 0}, {2, 2, 1, 0}, {2, 1, 1, 0}, {2, 0, 1, 1}, {2, 0, 1, 2}, {2, 1, 0, 2}, {2, 1, 1, 1}},
+		Quick:      [][]int64{{2, 0, 0, 0, 0}, {2, 1, 0, 0, 0}, {2, 0, 1, 0, 0}, {1, 1, 1, 0, 0}, {1, 0, 1, 1, 0}, {1, 0, 1, 2, 0}, {2, 0, 2, 0, 0}, {2, 0, 2, 0, 1}},
+		Thorough:   [][]int64{{3, 0, 0, 0, 0}, {3, 1, 0, 0, 0}, {2, 2, 1, 0, 0}, {2, 1, 1, 0, 0}, {2, 0, 1, 1, 0}, {2, 0, 1, 2, 0}, {2, 1, 0, 2, 0}, {2, 1, 1, 1, 0}, {2, 0, 2, 0, 0}, {2, 2, 2, 0, 1}, {2, 0, 2, 0, 1}},
 		Unwind:     40,
 		LoopBounds: fileLoopBounds,
 		Desc:       "k symbolic operations on file.New over the file-system model: deliver (fresh/old date, symbolic first content byte), get, mark seen, remove, purge, visit, retention scan and reopen (a new Store on the same path); after every step every mailbox is compared with a reference model (ids, order, subject, from, to, date, seen, size, content), ids are never reused, one deleted event per departure",
-		Bounds:     "params (k operations, mailbox cap, pre: concrete prelude of one delivery per mailbox, name set: unrelated names / same level-1 directory and lock / same level-1 and level-2 directories); two mailboxes; at most 3 live messages per mailbox addressed; bodies of 2 bytes; os / bufio.Writer / encoding/gob / crypto/sha1 replaced by the Go-written file-system model (harness/zzvrf/vfs.go); restart = new Store object in the same process (the id counter keeps running)",
+		Bounds:     "params (k operations, mailbox cap, pre: concrete prelude of one delivery per mailbox, name set: unrelated names / same level-1 directory and lock / same level-1 and level-2 directories, recap: cap of the store after a restart when it differs); two mailboxes; at most 3 live messages per mailbox addressed; bodies of 2 bytes; os / bufio.Writer / encoding/gob / crypto/sha1 replaced by the Go-written file-system model (harness/zzvrf/vfs.go); restart = new Store object in the same process (the id counter keeps running)",
 		Assumes:    []string{"gob round trip = deep copy of exported fields (nil and empty slices decode as nil); time.Time survives the round trip", "bufio.Writer content reaches the file at Flush", "directory listing order is the model map's insertion order"},
 	})
 	// the same history harness serves the file-store half of other properties
@@ -20,9 +20,9 @@ func init() {
 		thorough [][]int64
 		what     string
 	}{
-		{"C07", [][]int64{{2, 0, 0, 0}, {2, 1, 0, 0}, {1, 0, 1, 1}, {2, 0, 1, 0}}, [][]int64{{3, 0, 0, 0}, {3, 1, 0, 0}, {2, 2, 1, 0}, {2, 0, 1, 1}, {2, 0, 1, 2}}, "file back-end half of the store semantics"},
-		{"C16", [][]int64{{2, 0, 1, 0}, {2, 1, 1, 0}}, [][]int64{{2, 0, 1, 0}, {2, 1, 1, 0}, {3, 1, 0, 0}, {2, 2, 1, 0}}, "deleted events of the file store (remove, purge, cap eviction, retention)"},
-		{"C12", [][]int64{{1, 0, 1, 0}, {2, 0, 0, 0}}, [][]int64{{2, 0, 1, 0}, {3, 0, 0, 0}, {1, 0, 1, 2}}, "retention scan and visitor protocol on the file store"},
+		{"C07", [][]int64{{2, 0, 0, 0, 0}, {2, 1, 0, 0, 0}, {1, 0, 1, 1, 0}, {2, 0, 1, 0, 0}}, [][]int64{{3, 0, 0, 0, 0}, {3, 1, 0, 0, 0}, {2, 2, 1, 0, 0}, {2, 0, 1, 1, 0}, {2, 0, 1, 2, 0}}, "file back-end half of the store semantics"},
+		{"C16", [][]int64{{2, 0, 1, 0, 0}, {2, 1, 1, 0, 0}}, [][]int64{{2, 0, 1, 0, 0}, {2, 1, 1, 0, 0}, {3, 1, 0, 0, 0}, {2, 2, 1, 0, 0}}, "deleted events of the file store (remove, purge, cap eviction, retention)"},
+		{"C12", [][]int64{{1, 0, 1, 0, 0}, {2, 0, 0, 0, 0}}, [][]int64{{2, 0, 1, 0, 0}, {3, 0, 0, 0, 0}, {1, 0, 1, 2, 0}}, "retention scan and visitor protocol on the file store"},
 	} {
 		register(Harness{
 			Prop: e.prop, Pkg: "storage/file", Func: "VerifC10History", InitPkgs: []string{"storage"},
